@@ -25,6 +25,7 @@ from cxx2c import unwrap, strip_cv, qual
 TU_R = 'src/machine/result.cpp'
 HDR_R = os.path.join(astload.REPO, 'include/nano/machine/result.h')
 SRC_R = os.path.join(astload.REPO, TU_R)
+FLT_R = 'nano::ml::result_t::'
 TU_T = 'src/machine/tune.cpp'
 SRC_T = os.path.join(astload.REPO, TU_T)
 BOUND = 2 ** 62          # tensor invariant of C16: every suffix product of the extents is <= 2^62
@@ -183,8 +184,8 @@ def c_vec_index(wp, n, args, callee):
     i = wp.ev(args[1])
     size = wp.env[f'{vec}.size'].t
     wp.oblige(f'{vec.split(".")[-1]}[i]: index inside the vector', f'(and (<= 0 {i.t}) (< {i.t} {size}))', n)
-    if f'{vec}.elem' in wp.env:      # vectors of tuple-like elements with recorded components
-        return wp.env[f'{vec}.elem'](i.t)
+    if vec in getattr(wp, 'vec_elems', {}):      # vectors of tuple-like elements with named components
+        return wp.vec_elems[vec](i.t)
     return Obj('elem', vec=vec, pos=i.t)
 
 
@@ -360,7 +361,7 @@ def result_vcs():
 
         def post(wp, rv, k=k, nm=nm):
             return [(f'{nm}() == m_values.size<{k}>()', f'(= {rv.t} {dim(wp, "self.m_values", k)})')]
-        add(mk(f'result_t::{nm}', TU_R, f'result_t::{nm}', nm, nparams(0), setup, post, 'dimension accessor', HDR_R))
+        add(mk(f'result_t::{nm}', TU_R, FLT_R, nm, nparams(0), setup, post, 'dimension accessor', HDR_R))
 
     # ---- store(trial, fold, train, valid, extra): statistics and model data go to cell(trial, fold, ., .) / slot(trial, fold)
     def setup_store(wp, keys):
@@ -394,7 +395,7 @@ def result_vcs():
         if ok:
             out.append(('extra is stored at slot(trial, fold) = trial * folds + fold', f'(= {assigns[0]["dst"]["pos"]} {slot(wp, wp.t, wp.f)})'))
         return out
-    add(mk('result_t::store', TU_R, 'result_t::store', 'store', nparams(5), setup_store, post_store,
+    add(mk('result_t::store', TU_R, FLT_R, 'store', nparams(5), setup_store, post_store,
            'statistics of (trial, fold) are stored under (trial, fold)', SRC_R))
 
     # ---- extra(trial, fold) / log_path(trial, fold): read slot(trial, fold)
@@ -410,7 +411,7 @@ def result_vcs():
             if ok:
                 out.append((f'{nm}(trial, fold) reads slot(trial, fold) = trial * folds + fold', f'(= {rv["pos"]} {slot(wp, wp.t, wp.f)})'))
             return out
-        add(mk(f'result_t::{nm}', TU_R, f'result_t::{nm}', nm, nparams(2), setup_get, post_get,
+        add(mk(f'result_t::{nm}', TU_R, FLT_R, nm, nparams(2), setup_get, post_get,
                'per-(trial, fold) data is read from the slot it was stored in', SRC_R))
 
     # ---- stats(trial, fold, split, value): reads cell(trial, fold, split, value)
@@ -428,7 +429,7 @@ def result_vcs():
             out.append(('stats(trial, fold, split, value) reads cell(trial, fold, split, value)',
                         same_view(rv['of'], 'self.m_values', cell(wp, wp.t, wp.f, wp.env['split'].t, wp.env['value'].t))))
         return out
-    add(mk('result_t::stats', TU_R, 'result_t::stats', 'stats', nparams(4), setup_stats, post_stats,
+    add(mk('result_t::stats', TU_R, FLT_R, 'stats', nparams(4), setup_stats, post_stats,
            'statistics are read from the cell they were stored in', SRC_R))
 
     # ---- add(params_to_try): the slots of the new trials exist afterwards, old trials are preserved
@@ -489,7 +490,7 @@ def result_vcs():
             out.append(('statistics of the new trials [old trials, trials) start as NaN (not evaluated yet)',
                         rows(r[7]['dst'], 'self.m_values', wp.T0, T1) if r[7]['nan'] else 'false'))
         return out
-    add(mk('result_t::add', TU_R, 'result_t::add', 'add', nparams(1), setup_add, post_add,
+    add(mk('result_t::add', TU_R, FLT_R, 'add', nparams(1), setup_add, post_add,
            'add() creates the slots of the new trials and preserves the old ones', SRC_R, invariants={1: inv_outer, 2: inv_inner}))
 
     # ---- value(trial, split, value): mean over the folds of the stored mean of cell(trial, fold, split, value)
@@ -515,7 +516,7 @@ def result_vcs():
     def post_value(wp, rv):
         return [('value(trial, split, value) == (sum over folds of mean(cell(trial, fold, split, value))) / folds()',
                  f'(= {rv.t} (/ (S {wp.F}) (to_real {wp.F})))')]
-    add(mk('result_t::value', TU_R, 'result_t::value', 'value', nparams(3), setup_value, post_value,
+    add(mk('result_t::value', TU_R, FLT_R, 'value', nparams(3), setup_value, post_value,
            'mean across folds of the stored statistic (double as Real)', SRC_R, invariants={1: inv_value}, real=True))
     vcs.append(value_defaults_vc())
     return vcs, fns
@@ -524,12 +525,12 @@ def result_vcs():
 def value_defaults_vc():
     """optimum_trial() compares value(trial) with the default arguments: they must be (valid, errors) for the optimum to
     be the smallest mean *validation error*.  Read from clang's AST of the real declarations."""
-    _, val = load(TU_R, 'result_t::value', 'value', nparams(3))
+    _, val = load(TU_R, FLT_R, 'value', nparams(3))
     defaults = []
     for p in [c for c in val['inner'] if c['kind'] == 'ParmVarDecl'][1:]:
         d = [x for x in astload.walk(p) if x.get('kind') == 'DeclRefExpr' and x['referencedDecl'].get('kind') == 'EnumConstantDecl']
         defaults.append(d[0]['referencedDecl']['name'] if d else None)
-    _, opt = load(TU_R, 'result_t::optimum_trial', 'optimum_trial', nparams(0))
+    _, opt = load(TU_R, FLT_R, 'optimum_trial', nparams(0))
     calls = [c for c in astload.walk(opt) if c.get('kind') == 'CXXMemberCallExpr' and c['inner'][0].get('name') == 'value']
     ok = defaults == ['valid', 'errors'] and len(calls) == 1 and \
         [a.get('kind') for a in calls[0]['inner'][2:]] == ['CXXDefaultArgExpr', 'CXXDefaultArgExpr']
@@ -557,6 +558,211 @@ def lemmas():
     return out
 
 
+# ------------------------------------------------------------------------------------------------ ml::tune lambdas (B)
+# call-site contracts of the result_t members: precondition obliged, proved postcondition assumed
+def m_closest_trial_call(wp, n, args, obj):
+    mt = wp.ev(args[1])
+    wp.oblige('callee closest_trial(params, max_trials) precondition: 0 <= max_trials <= trials()',
+              f'(and (<= 0 {mt.t}) (<= {mt.t} {wp.T}))', n)
+    r = wp.fresh('Int', 'closest_trial', 'long')
+    wp.assume(f'(and (<= 0 {r.t}) (or (< {r.t} {mt.t}) (= {r.t} 0)))')      # NV_ARGMIN range clause, proved by CBMC (result.h)
+    return r
+
+
+def m_slot_call(vec):
+    def h(wp, n, args, obj):
+        t, f = wp.ev(args[0]), wp.ev(args[1])
+        wp.oblige(f'callee {vec[2:-1] if vec != "m_extras" else "extra"}(trial, fold) precondition: 0 <= trial < trials(), 0 <= fold < folds()',
+                  in_box(wp, t.t, f.t), n)
+        return Obj('elem', vec=f'{obj_name(wp, obj)}.{vec}', pos=slot(wp, t.t, f.t))    # proved for extra() / log_path()
+    return h
+
+
+def m_store_call(wp, n, args, obj):
+    t, f = wp.ev(args[0]), wp.ev(args[1])
+    wp.oblige('callee store(trial, fold, ..) precondition: 0 <= trial < trials(), 0 <= fold < folds()', in_box(wp, t.t, f.t), n)
+    record(wp, 'store', trial=t.t, fold=f.t, rest=[wp.ev(a) for a in args[2:]])
+    return V('0', 'Int', 'int')
+
+
+def m_add_call(wp, n, args, obj):
+    """result.add(new_params): preconditions obliged; effect = the postcondition proved for result_t::add"""
+    o = obj_name(wp, obj)
+    src = wp.ev(args[0])
+    k, P = dim(wp, src.t, 0), dim(wp, src.t, 1)
+    wp.oblige('callee add(params) precondition: at least one new trial, one column per parameter space',
+              f'(and (> {k} 0) (= {P} {dim(wp, o + ".m_params", 1)}))', n)
+    T1 = f'(+ {wp.T} {k})'
+    wp.oblige('callee add(params) precondition: grown tensors within the tensor bound',
+              f'(and (<= (* 48 (* {T1} {wp.F})) {BOUND}) (<= (* {T1} {P}) {BOUND}) (<= {T1} {BOUND}))', n)
+    for name in (f'{o}.m_values.0', f'{o}.m_params.0'):
+        wp.env[name] = V(T1, 'Int', 'long')
+    for vec in ('m_extras', 'm_log_paths'):
+        wp.env[f'{o}.{vec}.size'] = V(f'(* {wp.F} {T1})', 'Int', 'unsigned long')
+    wp.T = T1
+    record(wp, 'add', src=src.t)
+    return V('0', 'Int', 'int')
+
+
+def m_map(wp, n, args, obj):
+    size = wp.ev(args[0])
+    record(wp, 'map', size=size.t, op=wp.ev(args[1]))
+    return V('0', 'Int', 'int')
+
+
+def m_log(wp, n, args, obj):
+    record(wp, 'log')
+    return V('0', 'Int', 'int')
+
+
+def m_values_call(wp, n, args, obj):
+    r = wp.ev(args[0])
+    wp.oblige('callee values(range) precondition: every trial of the range exists (value(trial) asserts 0 <= trial < trials())',
+              f'(and (<= 0 {r["begin"]}) (<= {r["begin"]} {r["end"]}) (<= {r["end"]} {wp.T}))', n)
+    return Obj('values', begin=r['begin'], end=r['end'])
+
+
+def c_make_range(wp, n, args, callee):
+    b, e = wp.ev(args[0]), wp.ev(args[1])
+    return Obj('range', begin=b.t, end=e.t)
+
+
+def c_make_file_logger(wp, n, args, callee):
+    return Obj('logger', path=wp.ev(args[0]))
+
+
+def c_function_call(wp, n, args, callee):
+    """std::function::operator(): the user callback -- recorded with its arguments; returns an opaque tuple"""
+    f = unwrap(args[0])
+    if f.get('kind') != 'DeclRefExpr' or f['referencedDecl']['name'] != 'callback':
+        raise Unsupported(f'{wp.name}: call through {f.get("kind")}')
+    k = len(wp.rec)
+    record(wp, 'callback', args=[wp.ev(a) for a in args[1:]])
+    return Obj('cbresult', call=k, parts=[Obj('cbpart', call=k, k=i) for i in range(3)])
+
+
+CALLS_T = CALLS_R + [(r'^make_range\|', c_make_range), (r'^make_file_logger\|', c_make_file_logger), (r'^operator\(\)\|', c_function_call)]
+MEMBERS_T = [(r'^closest_trial\|.*result_t', m_closest_trial_call), (r'^extra\|.*result_t', m_slot_call('m_extras')),
+             (r'^log_path\|.*result_t', m_slot_call('m_log_paths')), (r'^store\|.*result_t', m_store_call),
+             (r'^add\|.*result_t', m_add_call), (r'^map\|.*pool_t', m_map), (r'^log\|.*params_t', m_log),
+             (r'^values\|.*result_t', m_values_call)] + MEMBERS_R
+
+
+def lambda_of(k):
+    def pick(fn):
+        lams = astload.find_lambdas(fn)
+        if k >= len(lams):
+            raise astload.ExtractionError(f'lambda #{k} of {fn.get("name")} not found')
+        ops = [m for m in astload.walk(lams[k]) if m.get('kind') == 'CXXMethodDecl' and m.get('name') == 'operator()']
+        if not ops:
+            raise astload.ExtractionError('lambda without operator()')
+        return ops[0]
+    return pick
+
+
+def setup_tune_env(wp):
+    """variables captured by reference from ml::tune: result (class invariant), folds, splits, callback"""
+    setup_result(wp, 'result')
+    wp.env['folds'] = wp.fresh('Int', 'folds', 'long')
+    wp.env['splits.size'] = wp.fresh('Int', 'splits_size', 'unsigned long')
+    # ml::tune, lines 12-15: folds = static_cast<tensor_size_t>(splits.size()); result = result_t{spaces, folds}
+    wp.assume(f'(and (= {wp.env["folds"].t} {wp.env["splits.size"].t}) (= {wp.F} {wp.env["folds"].t}))')
+    wp.vec_elems = {'splits': lambda i: Obj('split', fold=i, parts=[Obj('samples', which='train', fold=i), Obj('samples', which='valid', fold=i)])}
+    wp.env['callback'] = Obj('function', name='callback')
+
+
+def tune_vcs():
+    vcs, fns = [], []
+
+    def add(r):
+        vcs.extend(r[0])
+        fns.append(r[1])
+
+    # ---- lambda #1: thread_callback(index, thread): one (trial, fold) task
+    def setup_thread(wp, keys):
+        setup_tune_env(wp)
+        tensor(wp, 'new_params', 2)
+        wp.new = dim(wp, 'new_params', 0)
+        wp.old = int_param(wp, 'old_trials')
+        wp.env['new_trials'] = V(wp.new, 'Int', 'long')
+        wp.assume(f'(>= {wp.old} 0)')
+        wp.assume(f'(= {wp.T} (+ {wp.old} {wp.new}))')          # postcondition of result.add(new_params) (tuner lambda: add precedes map)
+        wp.idx = int_param(wp, 'index')
+        int_param(wp, [k for k in keys if k != 'index'][0], 'unsigned long')
+        # contract of parallel::pool_t::map(size, op) (C17): op is called with every index of [0, size) once; size = folds * new_trials
+        wp.assume(f'(and (<= 0 {wp.idx}) (< {wp.idx} (* {wp.env["folds"].t} {wp.new})))')
+
+    def post_thread(wp, rv):
+        F = wp.env['folds'].t
+        fold, trial = f'(mod {wp.idx} {F})', f'(div {wp.idx} {F})'
+        out = [('(trial, fold) = (index div folds, index mod folds) addresses one of the new trials and one of the folds',
+                f'(and (<= 0 {trial}) (< {trial} {wp.new}) (<= 0 {fold}) (< {fold} {F}) (= {wp.idx} (+ (* {trial} {F}) {fold})))')]
+        kinds = [what for what, kw in wp.rec]
+        out.append(('the model callback is called exactly once, then its results are stored exactly once', 'true' if kinds == ['callback', 'store'] else 'false'))
+        if kinds != ['callback', 'store']:
+            return out
+        cb, st = wp.rec[0][1], wp.rec[1][1]
+        a = cb['args']
+
+        def is_obj(o, kind):
+            return isinstance(o, Obj) and o.kind == kind
+        ok = len(a) == 5 and is_obj(a[0], 'samples') and is_obj(a[1], 'samples') and a[0]['which'] == 'train' and a[1]['which'] == 'valid'
+        out.append(("the callback gets that fold's training and validation indices: splits[index mod folds]",
+                    AND(f'(= {a[0]["fold"]} {fold})', f'(= {a[1]["fold"]} {fold})') if ok else 'false'))
+        out.append(("the callback gets the trial's parameters: new_params.tensor(index div folds)",
+                    same_view(a[2], 'new_params', (trial,)) if len(a) == 5 else 'false'))
+        ok = len(a) == 5 and is_obj(a[3], 'elem') and a[3]['vec'] == 'result.m_extras'
+        out.append(('the warm-start data is the model data of an existing trial for the same fold',
+                    f'(exists ((c Int)) (and (<= 0 c) (< c {wp.T}) (= {a[3]["pos"]} {slot(wp, "c", fold)})))' if ok else 'false'))
+        ok = len(a) == 5 and is_obj(a[4], 'logger') and is_obj(a[4]['path'], 'elem') and a[4]['path']['vec'] == 'result.m_log_paths'
+        out.append(('the logger writes to log_path(old_trials + trial, fold)',
+                    f'(= {a[4]["path"]["pos"]} {slot(wp, f"(+ {wp.old} {trial})", fold)})' if ok else 'false'))
+        out.append(('the results are stored under (old_trials + index div folds, index mod folds)',
+                    AND(f'(= {st["trial"]} (+ {wp.old} {trial}))', f'(= {st["fold"]} {fold})')))
+        r = st['rest']
+        ok = len(r) == 3 and all(is_obj(x, 'cbpart') and x['call'] == 0 and x['k'] == i for i, x in enumerate(r))
+        out.append(("what is stored are that call's (training values, validation values, model data), in this order", 'true' if ok else 'false'))
+        return out
+    add(mk('tune::thread_callback', TU_T, 'nano::ml::tune', 'tune', None, setup_thread, post_thread,
+           'one task = one (trial, fold): decoded from the flat index, evaluated once, stored under that (trial, fold)', SRC_T,
+           calls=CALLS_T, members=MEMBERS_T, fn_of=lambda_of(1)))
+
+    # ---- lambda #0: tuner_callback(new_params): grows the result, maps the tasks, returns the values of the new trials
+    def setup_tuner(wp, keys):
+        setup_tune_env(wp)
+        tensor(wp, 'new_params', 2)
+        wp.new = dim(wp, 'new_params', 0)
+        wp.old = wp.T
+        # guaranteed by the callers: evaluate() calls back with >= 1 grid points and one column per space (map_to_grid);
+        # ml::tune's direct call passes tensor2d_t{1, 0} when there are no spaces
+        wp.assume(f'(and (> {wp.new} 0) (= {dim(wp, "new_params", 1)} {dim(wp, "result.m_params", 1)}))')
+        T1 = f'(+ {wp.T} {wp.new})'
+        wp.assume(f'(and (<= (* 48 (* {T1} {wp.F})) {BOUND}) (<= (* {T1} {dim(wp, "new_params", 1)}) {BOUND}) (<= {T1} {BOUND}))')
+        wp.env['tpool'] = Obj('pool')
+        wp.env['fit_params'] = Obj('params')
+        wp.env['prefix'] = Obj('string')
+
+    def post_tuner(wp, rv):
+        kinds = [what for what, kw in wp.rec]
+        out = [('add(new_params) runs before the tasks are mapped (their slots exist), then the log, in this order',
+                'true' if kinds == ['add', 'map', 'log'] else 'false')]
+        if kinds != ['add', 'map', 'log']:
+            return out
+        ad, mp = wp.rec[0][1], wp.rec[1][1]
+        out.append(('the trials added are the requested parameter rows', 'true' if ad['src'] == 'new_params' else 'false'))
+        out.append(('the pool runs folds * new_trials tasks: one per (new trial, fold) by the decoding lemma',
+                    f'(= {mp["size"]} (* {wp.env["folds"].t} {wp.new}))'))
+        out.append(('every task runs the thread lambda', 'true' if isinstance(mp['op'], Obj) and mp['op'].kind == 'lambda' and mp['op']['name'] == 'thread_callback' else 'false'))
+        ok = isinstance(rv, Obj) and rv.kind == 'values'
+        out.append(('the tuner receives the values of exactly the new trials [old_trials, old_trials + new_trials), in order',
+                    AND(f'(= {rv["begin"]} {wp.old})', f'(= {rv["end"]} (+ {wp.old} {wp.new}))') if ok else 'false'))
+        return out
+    add(mk('tune::tuner_callback', TU_T, 'nano::ml::tune', 'tune', None, setup_tuner, post_tuner,
+           'one tuner evaluation = add the trials, run every (trial, fold) task, report the new values', SRC_T,
+           calls=CALLS_T, members=MEMBERS_T, fn_of=lambda_of(0)))
+    return vcs, fns
+
+
 # ------------------------------------------------------------------------------------------------ back end A: result_t
 H_R = 'specs/C13/result.h'
 TYPES_R = [(r'::RealScalar$', 'double'),
@@ -569,14 +775,16 @@ RESULT_A = dict(self_struct='struct nv_result', types=TYPES_R,
 
 
 def result_targets():
-    opt = Fn('result_optimum_trial', TU_R, 'optimum_trial', flt='result_t::optimum_trial', **RESULT_A)
-    clo = Fn('result_closest_trial', TU_R, 'closest_trial', flt='result_t::closest_trial', **RESULT_A)
+    opt = Fn('result_optimum_trial', TU_R, 'optimum_trial', flt=FLT_R, **RESULT_A)
+    clo = Fn('result_closest_trial', TU_R, 'closest_trial', flt=FLT_R, **RESULT_A)
     return [Target('optimum_trial', [opt], H_R), Target('closest_trial', [clo], H_R)]
 
 
 def build(tier):
     vcs, fns = result_vcs()
-    vcs += lemmas()
+    v2, f2 = tune_vcs()
+    vcs += v2 + lemmas()
+    fns += f2
     return {
         'targets': result_targets(), 'vcs': vcs, 'functions': fns,
         'decided': [],
